@@ -176,7 +176,7 @@ CLAIMED = {
              "real edit lists dumped by the fmt_trace hook; the exact phase models reproduce every real intermediate text.",
         note=TB + "gap_rewrite_same_tokens is stated over segmentations (that the real lexer re-segments the rendered text is "
              "decided per input). sameTokens => same parse is replaced by the per-input tree comparison (needs the parser "
-             "model). Known finding: blank lines inside a multi-line string are collapsed. Inputs containing CR are judged in "
+             "model). Five formatter defects that changed meaning (line starting inside a string re-indented, blank lines inside a string collapsed, `Fun<(), Unit>` rendered as `Fun<Tuple, Unit>`, code after a `// args: ` comment dropped by the CLI, …) were found and fixed in /repo (known_findings.json `fixed`); no known finding remains. Inputs containing CR are judged in "
              "C18 only.",
         design="§7 C17"),
     "C18": dict(
